@@ -29,6 +29,15 @@ def cases():
     yield ('out-of-range-escape', {'a': b'a'}, {'Manifest': ['DATA \\U00110000 1']}, [''])
     yield ('huge-escape', {'a': b'a'}, {'Manifest': ['DATA \\UFFFFFFFF 1']}, [''])
     yield ('surrogate-escape', {'a': b'a'}, {'Manifest': ['DATA \\uD800 1', 'DATA a 1 SHA1 ' + SHA1_A]}, [''])
+    yield ('nul-escape', {'a': b'a'}, {'Manifest': ['DATA a\\x00b 1', 'DATA a 1 SHA1 ' + SHA1_A]}, [''])
+    yield ('ignored-directory-with-manifest-entry', {'sub/b': b'a', 'c': b'a'},
+           {'Manifest': ['IGNORE sub', 'MANIFEST sub/Manifest 0', 'DATA c 1 SHA1 ' + SHA1_A], 'sub/Manifest': ['DATA b 1 SHA1 ' + SHA1_A]}, [''])
+    yield ('ignored-directory-with-nested-manifests', {'sub/b': b'a', 'sub/deep/c': b'a'},
+           {'Manifest': ['IGNORE sub', 'MANIFEST sub/Manifest 0'], 'sub/Manifest': ['DATA b 1 SHA1 ' + SHA1_A, 'MANIFEST deep/Manifest 0'],
+            'sub/deep/Manifest': ['DATA c 1 SHA1 ' + SHA1_A]}, [''])
+    yield ('unreferenced-compressed-manifest-next-to-top-level',
+           {'a': b'a', 'Manifest.gz': __import__('gzip').compress(('DATA a 1 SHA1 ' + SHA1_A + '\n').encode())},
+           {'Manifest': ['DATA a 1 SHA1 ' + SHA1_A]}, [''])
     yield ('entry-names-directory', {'d/x': b'a'}, {'Manifest': ['DATA d 1 SHA1 ' + SHA1_A]}, [''])
     yield ('entry-beneath-regular-file', {'d': b'a'}, {'Manifest': ['DATA d 1 SHA1 ' + SHA1_A, 'DATA d/x 1 SHA1 ' + SHA1_A]}, [''])
     yield ('unreferenced-sub-manifest', {'sub/x': b'a'}, {'Manifest': [], 'sub/Manifest': []}, ['', 'sub'])
